@@ -122,7 +122,16 @@ def analyse(task):
     res['solver_time'] += E.stats['solver_time']
     base = {'shape': task['shape'], 'flags': sorted(flags), 'seq': seq, 'argv_seq': task.get('argv_seq')}
 
+    first_smt = []
+
     def ask(fs, what):
+        if not first_smt and what not in ('pc', 'twin'):
+            try:
+                s_ = z3.Solver()
+                s_.add(*fs)
+                first_smt.append((what, s_.to_smt2()[:1500]))
+            except Exception:  # noqa
+                first_smt.append((what, ''))
         t0 = time.time()
         tm = _tmo(QTIMEOUT)
         if tm <= 0:
@@ -478,7 +487,8 @@ def analyse(task):
                 res['controls']['negctl_sat'] = res['controls'].get('negctl_sat', 0) + (1 if r == 'sat' else 0)
 
     res['sample'] = {'shape': task['shape'], 'flags': sorted(flags), 'seq': seq, 'forms': forms,
-                     'obligations': res['obligations']}
+                     'obligations': res['obligations'],
+                     'first_query': {'form': first_smt[0][0], 'smt2_prefix': first_smt[0][1]} if first_smt else None}
     return res
 
 
